@@ -114,9 +114,9 @@ def _props_of(func, clause, kind):
 def deductive_stage(jobs, tier, src_root=None):
     from pyvc.run import run_jobs
     # per-obligation budget: on the unchanged tree every obligation is proved well inside it (slowest ~13 s with all cores
-    # busy), so the size only matters for how long an obligation that has become unprovable is pursued - and for not
+    # busy here, about twice that on the machine that re-runs the checks), so the size only matters for how long an obligation that has become unprovable is pursued - and for not
     # flipping a verdict to `unknown` on a loaded machine
-    to = 40000 if tier == "quick" else 90000
+    to = 60000 if tier == "quick" else 120000
     for jb in jobs:
         jb["timeout_ms"] = to
         if src_root:
@@ -237,7 +237,7 @@ def run_property(pid, tier):
         from pyvc import joint
         t1 = time.time()
         try:
-            jobls = joint.run(os.environ.get("SANSLDAP_SRC"), 40000 if tier == "quick" else 90000)
+            jobls = joint.run(os.environ.get("SANSLDAP_SRC"), 60000 if tier == "quick" else 120000)
         except Exception as e:
             jobls = []
             errors.append({"function": "pyvc.joint", "error": f"{type(e).__name__}: {e}"[:600], "kind": "crash"})
